@@ -174,6 +174,16 @@ Injections == <<
   Inj("enum value outside its base type", "uint8 = -1", With(iSmall, En("Small", "uint8", << Mem("Lo", "0", <<0>>), BadMem("Hi", "-1", <<255,255>>) >>))),
   Inj("enum value outside its base type", "int16 = 40000", With(iSmall, En("Small", "int16", << Mem("Lo", "0", <<0,0>>), BadMem("Hi", "40000", <<64,156,0>>) >>))),
   Inj("enum value outside its base type", "default base = 4294967296", With(iColor, En("Color", "", << Mem("Red", "1", <<1,0,0,0>>), BadMem("Green", "4294967296", <<0,0,0,0,1>>) >>))),
+  \* ... written in hexadecimal: a bit pattern as wide as the type is a number beyond a signed type's maximum
+  Inj("enum value outside its base type", "int16 = 0x12345", With(iSmall, En("Small", "int16", << Mem("Lo", "0", <<0,0>>), BadMem("Hi", "0x12345", <<69,35,1>>) >>))),
+  Inj("enum value outside its base type", "int16 = 0xFFFF", With(iSmall, En("Small", "int16", << Mem("Lo", "0", <<0,0>>), BadMem("Hi", "0xFFFF", <<255,255,0>>) >>))),
+  Inj("enum value outside its base type", "int16 = -0x8001", With(iSmall, En("Small", "int16", << Mem("Lo", "0", <<0,0>>), BadMem("Hi", "-0x8001", <<255,127,255>>) >>))),
+  Inj("enum value outside its base type", "int32 = 0x1FFFFFFFF", With(iSmall, En("Small", "int32", << Mem("Lo", "0", <<0,0,0,0>>), BadMem("Hi", "0x1FFFFFFFF", <<255,255,255,255,1>>) >>))),
+  Inj("enum value outside its base type", "int32 = 0xFFFFFFFF", With(iSmall, En("Small", "int32", << Mem("Lo", "0", <<0,0,0,0>>), BadMem("Hi", "0xFFFFFFFF", <<255,255,255,255,0>>) >>))),
+  Inj("enum value outside its base type", "int64 = 0xFFFFFFFFFFFFFFFF", With(iSmall, En("Small", "int64", << Mem("Lo", "0", <<0,0,0,0,0,0,0,0>>), BadMem("Hi", "0xFFFFFFFFFFFFFFFF", <<255,255,255,255,255,255,255,255,0>>) >>))),
+  Inj("enum value outside its base type", "uint8 = 0x100", With(iSmall, En("Small", "uint8", << Mem("Lo", "0", <<0>>), BadMem("Hi", "0x100", <<0,1>>) >>))),
+  Inj("enum value outside its base type", "uint16 = 0x10000", With(iSmall, En("Small", "uint16", << Mem("Lo", "0", <<0,0>>), BadMem("Hi", "0x10000", <<0,0,1>>) >>))),
+  Inj("enum value outside its base type", "uint64 = -1", With(iSmall, En("Small", "uint64", << Mem("Lo", "0", <<0,0,0,0,0,0,0,0>>), BadMem("Hi", "-1", <<255,255,255,255,255,255,255,255,255>>) >>))),
   \* 8. consts
   Inj("const literal not assignable to its type", "int32 = string", With(iC1, BadConst("int32", "c1", "\"five\""))),
   Inj("const literal not assignable to its type", "string = integer", With(iC2, BadConst("string", "c2", "5"))),
@@ -434,8 +444,28 @@ ImpInlined(i) == SelectSeq(ImpDep, LAMBDA d : d.k # "const") \o (IF ImpCase(i).d
                  \o SelectSeq(ImpItems(i), LAMBDA d : d.k \notin {"import", "const"})
 
 -----------------------------------------------------------------------------
+(* Duplicates ACROSS files: in combined import mode the imported file's      *)
+(* definitions become part of the schema, so a name, const or opcode         *)
+(* declared in both files is a duplicate like any other.                     *)
+DupRoot == << [k |-> "import", path |-> "./dep.bop"], Co("int32", "rc", "1"), St("RootS", << F("a", P("int32")) >>),
+              En("RootE", "", << Mem("A", "1", <<1,0,0,0>>) >>), MsOp("RootOp", "7", <<7,0,0,0>>, << FI(1, "b", P("bool")) >>),
+              Un("RootU", << Br(1, St("RootUA", << F("a", P("int32")) >>)) >>) >>
+DupKinds == << "none", "const", "struct", "enum", "message named like a struct", "opcode", "union", "struct named like a union branch" >>
+DupDep(kind) ==
+  << St("DepS", << F("a", P("int32")) >>) >> \o
+  (CASE kind = "none" -> << Co("int32", "dc", "2") >>
+     [] kind = "const" -> << Co("int32", "rc", "2") >>
+     [] kind = "struct" -> << St("RootS", << F("z", P("bool")) >>) >>
+     [] kind = "enum" -> << En("RootE", "", << Mem("B", "1", <<1,0,0,0>>) >>) >>
+     [] kind = "message named like a struct" -> << Ms("RootS", << FI(1, "z", P("bool")) >>) >>
+     [] kind = "opcode" -> << StOp("DepOp", "0x7", <<7,0,0,0>>, << F("b", P("bool")) >>) >>
+     [] kind = "union" -> << Un("RootU", << Br(1, St("DepUA", << F("a", P("int32")) >>)) >>) >>
+     [] kind = "struct named like a union branch" -> << St("RootUA", << F("z", P("bool")) >>) >>)
+DupInlined(i) == SelectSeq(DupRoot, LAMBDA d : d.k # "import") \o DupDep(DupKinds[i])
+
+-----------------------------------------------------------------------------
 Init == part = "" /\ ci = 0
-Count(p) == CASE p = "base" -> 2 [] p = "inject" -> Len(Injections) [] p = "sites" -> Len(SiteInjections) [] p = "graph" -> GraphCount [] p = "names" -> NNames [] p = "impuse" -> NImpUse
+Count(p) == CASE p = "base" -> 2 [] p = "inject" -> Len(Injections) [] p = "sites" -> Len(SiteInjections) [] p = "graph" -> GraphCount [] p = "names" -> NNames [] p = "impuse" -> NImpUse [] p = "impdup" -> Len(DupKinds)
 Next == \/ part = "" /\ part' \in Parts /\ UNCHANGED ci
         \/ part # "" /\ ci = 0 /\ ci' \in 1..Count(part) /\ UNCHANGED part
 IsCase == ci > 0
@@ -446,33 +476,39 @@ Items == CASE part = "base" -> (IF ci = 1 THEN Base ELSE Base2)
            [] part = "sites" -> SiteInjections[ci].items
            [] part = "names" -> NameItems(NameCase(ci).pos, NameCase(ci).nm.n)
            [] part = "impuse" -> ImpItems(ci)
+           [] part = "impdup" -> DupRoot
            [] part = "graph" -> GraphItems(GC.n, GC.g, GC.kind)
-Class == CASE part = "base" -> "" [] part = "inject" -> Injections[ci].class [] part = "sites" -> SiteInjections[ci].class [] part = "names" -> "" [] part = "impuse" -> "" [] part = "graph" -> "struct necessarily contains itself"
+Class == CASE part = "base" -> "" [] part = "inject" -> Injections[ci].class [] part = "sites" -> SiteInjections[ci].class [] part = "names" -> "" [] part = "impuse" -> "" [] part = "impdup" -> Violated(DupInlined(ci)) [] part = "graph" -> "struct necessarily contains itself"
 Site  == CASE part = "base" -> "" [] part = "inject" -> Injections[ci].site [] part = "sites" -> SiteInjections[ci].site
            [] part = "names" -> NameCase(ci).nm.n \o " as " \o NameCase(ci).pos
+           [] part = "impdup" -> "combined import mode, declared in both files: " \o DupKinds[ci]
            [] part = "impuse" -> "imported " \o ImpCase(ci).k \o " under wrapper " \o ToString(ImpCase(ci).w) \o " in a " \o ImpCase(ci).h
                                 \o (CASE ImpCase(ci).deps = "one" -> "" [] ImpCase(ci).deps = "two" -> " (from the second of two imported files, the first unused)"
                                        [] OTHER -> " (two imported files, both used)")
            [] part = "graph" -> ToString(GC.n) \o " structs, graph " \o ToString(GC.g) \o ", edges " \o GC.kind
 \* the specification's verdict; edges through arrays/maps are left open by the property's wording
-Expect == IF part = "impuse" THEN (IF Violated(ImpInlined(ci)) = "" THEN "accept" ELSE "reject")
+Expect == IF part = "impdup" THEN (IF Violated(DupInlined(ci)) = "" THEN "accept" ELSE "reject")
+          ELSE IF part = "impuse" THEN (IF Violated(ImpInlined(ci)) = "" THEN "accept" ELSE "reject")
           ELSE IF part = "graph" /\ GC.kind \in {"array", "map"} THEN "unspec"
           ELSE IF Violated(Items) = "" THEN "accept" ELSE "reject"
 
 \* the base is well-formed; each injection violates exactly the rule it is filed under
 BaseWellFormed == Violated(Base) = "" /\ Violated(Base2) = ""
 InjectionsIllFormed == (IsCase /\ part \in {"inject", "sites"}) => Violated(Items) = Class
-Where == IF part = "sites" THEN SiteInjections[ci].where ELSE ""
+Where == IF part = "sites" THEN SiteInjections[ci].where
+         ELSE IF part = "impdup" /\ DupKinds[ci] = "struct named like a union branch" THEN "branch" ELSE ""
 \* every naming of the small schemas is a valid schema
 NamesWellFormed == (IsCase /\ part = "names") => Violated(Items) = ""
 ImportUseWellFormed == (IsCase /\ part = "impuse") => Violated(ImpInlined(ci)) = ""
+\* only the "none" variant is well-formed, each other variant violates a rule of the validator
+DupVerdicts == (IsCase /\ part = "impdup") => ((Violated(DupInlined(ci)) = "") <=> (DupKinds[ci] = "none"))
 NameOf == IF part = "names" THEN NameCase(ci).nm @@ [pos |-> NameCase(ci).pos] ELSE [pos |-> ""]
 \* graphs: direct edges are rejected iff the graph has a cycle; message/union edges never
 GraphVerdicts == (IsCase /\ part = "graph" /\ GC.kind \in {"message", "union"}) => Violated(Items) = ""
 
 Export == IsCase => PrintT("@@PCASE " \o ToJson([part |-> part, ci |-> ci, tokens |-> Tokens(Items), file |-> [x |-> 0],
                                                   extra |-> [class |-> Class, site |-> Site, where |-> Where, expect |-> Expect, name |-> NameOf,
-                                                             dep |-> IF part = "impuse" THEN Tokens(ImpDep) ELSE <<>>,
+                                                             dep |-> IF part = "impuse" THEN Tokens(ImpDep) ELSE IF part = "impdup" THEN Tokens(DupDep(DupKinds[ci])) ELSE <<>>,
                                                              \* combined mode inlines the imported file: it must not define go_package a second time
                                                              depc |-> IF part = "impuse" THEN Tokens(Tail(ImpDep)) ELSE <<>>,
                                                              dep2 |-> IF part = "impuse" /\ ImpCase(ci).deps # "one" THEN Tokens(ImpDep2) ELSE <<>>,
